@@ -233,9 +233,55 @@ func denseIDs() *family {
 	})
 }
 
+// shells: an intermediate struct (all fields required / all default / required + optional, with and
+// without the unknown-fields holder) around a leaf struct held by value or by pointer, itself held
+// in every position the decoder creates or reuses structs in (map values decoded into a reused
+// temporary, list elements, fields).  Exercises "every field is rewritten anyway" shortcuts.
+func shells() *family {
+	return cached("shells", func() *family {
+		f := &family{name: "struct-shells"}
+		sc := universe.Sc
+		inners := []func() *ref.Type{
+			func() *ref.Type { return universe.StVal(universe.Leaf()) },
+			func() *ref.Type { return universe.StPtr(universe.Leaf()) },
+			func() *ref.Type { return universe.StVal(universe.LeafHolder()) },
+		}
+		reqs := [][2]ref.Req{{ref.ReqRequired, ref.ReqRequired}, {ref.ReqDefault, ref.ReqDefault}, {ref.ReqRequired, ref.ReqOptional}}
+		for ii, in := range inners {
+			for ri, rq := range reqs {
+				for _, holder := range []bool{false, true} {
+					if holder && !(ri == 0 && ii == 0) {
+						continue
+					}
+					mkV := func() *ref.Struct {
+						second := sc(ref.KI32)
+						if rq[1] == ref.ReqOptional {
+							second = &ref.Type{Kind: ref.KI32, Ptr: true}
+						}
+						v := &ref.Struct{Unknown: holder, Fields: []*ref.Field{{ID: 1, Req: rq[0], Type: in()}, {ID: 2, Req: rq[1], Type: second}}}
+						return v
+					}
+					for _, t := range []*ref.Type{
+						universe.MapOf(sc(ref.KI32), universe.StVal(mkV())), universe.MapOf(sc(ref.KI32), universe.StPtr(mkV())),
+						universe.ListOf(universe.StVal(mkV())), universe.ListOf(universe.StPtr(mkV())),
+						universe.StVal(mkV()), universe.StPtr(mkV()), universe.MapOf(sc(ref.KString), universe.ListOf(universe.StVal(mkV()))),
+					} {
+						sh := universe.FieldShell{Req: ref.ReqDefault}
+						if t.Ptr {
+							sh.Req = ref.ReqOptional
+						}
+						f.items = append(f.items, universe.One(t, sh, 1))
+					}
+				}
+			}
+		}
+		return f
+	})
+}
+
 // codecFamilies is the type space shared by C01, C02, C04, C16 and C18.
 func codecFamilies(tier universe.Tier) []*family {
-	fs := []*family{singles(3), idFamily(), pairs(tier), depth4(), wide(), idSweep(), denseIDs()}
+	fs := []*family{singles(3), idFamily(), pairs(tier), depth4(), wide(), idSweep(), denseIDs(), shells()}
 	if tier == universe.Thorough {
 		fs = append(fs, triples())
 	}
